@@ -270,6 +270,9 @@ def run(ctx):
   not_fitted_checks(ctx)
   pickle_checks(ctx, ctx.tier == 'thorough')
   pickle_preprocessor_checks(ctx)
+  # array-valued parameters in every layout: untouched by fit, and a clone taken after the fit behaves identically
+  from props.c17 import array_param_lane
+  array_param_lane(ctx)
 
 
 def replay(payload):
